@@ -157,6 +157,7 @@ def gen_spec(rng, big=False):
             fids.append(f)
     return dict(nx=nx, ny=ny, nseeds=nseeds, nfid=nfid, nmet=nmet, style=style, table=table, delays=delays, nan_cols=nan_cols,
                 fids=fids, fid_grid=grid, key_order=rng.choice(["xy", "yx", "exy", "yex"]),
+                rename=gen_rename(rng, nmet) if rng.random() < 0.4 else None,
                 sleep=rng.choice([0.1, 0.25, 0.5, 1.0, 0.0, 2.0]),
                 checkpointing=rng.random() < 0.7,
                 fixed_seed=rng.choice([None, None, rng.randrange(nseeds)]),
@@ -192,11 +193,57 @@ def make_blackbox(spec):
             self.seed_calls.append(seed)
             return super()._objective_function(configuration, fidelity=fidelity, seed=seed)
 
-    bb = RecordingBlackbox(hyperparameters=hp, configuration_space=cs, fidelity_space=fs,
-                           objectives_evaluations=ev, fidelity_values=np.array(fids),
-                           objectives_names=["m%d" % k for k in range(nmet)] + ["elapsed"])
+    names = ["m%d" % k for k in range(nmet)] + ["elapsed"]
+    rn = spec.get("rename")
+    if not rn:
+        bb = RecordingBlackbox(hyperparameters=hp, configuration_space=cs, fidelity_space=fs,
+                               objectives_evaluations=ev, fidelity_values=np.array(fids), objectives_names=names)
+        bb.seed_calls = []
+        return bb
+    # "renamed table" variant: the data sits in a table with other column names, in another column order and
+    # with extra columns; the blackbox handed to the backend is table.rename_objectives(mapping), the
+    # documented way to adapt a table. The reference spec["table"] is by the NEW names and is never read
+    # back from the renamed blackbox.
+    cols = rn["columns"]                      # original column names in table order
+    ev0 = np.zeros((nx * ny, spec["nseeds"], spec["nfid"], len(cols)))
+    for j, col in enumerate(cols):
+        src = rn["source"].get(col)           # new name this column is renamed to, None for an extra column
+        if src is None:
+            ev0[:, :, :, j] = 7000.0 + 13.0 * j + np.arange(ev0.shape[2])[None, None, :]
+        else:
+            ev0[:, :, :, j] = ev[:, :, :, names.index(src)]
+    orig = m["BlackboxTabular"](hyperparameters=hp, configuration_space=cs, fidelity_space=fs,
+                                objectives_evaluations=ev0, fidelity_values=np.array(fids), objectives_names=list(cols))
+    bb = orig.rename_objectives({old: new for old, new in rn["mapping"]})
+    # seed recording on the returned (plain) BlackboxTabular: wrap its _objective_function
     bb.seed_calls = []
+    inner = bb._objective_function
+
+    def recording_objective_function(configuration, fidelity=None, seed=None):
+        bb.seed_calls.append(seed)
+        return inner(configuration, fidelity=fidelity, seed=seed)
+
+    bb._objective_function = recording_objective_function
     return bb
+
+
+def gen_rename(rng, nmet):
+    """original column names / order, extra columns, and a mapping old -> new listed in an order that differs
+    from the table's column order whenever possible"""
+    targets = ["m%d" % k for k in range(nmet)] + ["elapsed"]
+    ncols = len(targets) + rng.randint(0, 2)
+    cols = ["col%d" % j for j in range(ncols)]
+    holders = rng.sample(cols, len(targets))          # which original column carries which target
+    source = {c: None for c in cols}
+    for c, tname in zip(holders, targets):
+        source[c] = tname
+    pairs = [[c, source[c]] for c in cols if source[c] is not None]     # table order
+    mapping = list(pairs)
+    for _ in range(5):
+        rng.shuffle(mapping)
+        if mapping != pairs:
+            break
+    return dict(columns=cols, source=source, mapping=mapping)
 
 
 def cfg_dict(spec, idx, maxres):
